@@ -22,4 +22,13 @@ def demoEnv : Str → Option Str := fun k => if k = ['E','N'] then some ['5'] el
 def demoAsgs : List Asg :=
   [.sAtt ['f'] 'n' ['3'], .lEq ['l','s','t'] ['a'], .sDet [] 'l' ['b'], .lFlag ['n','o','-','f','l','a','g']]
 
+/-- a table with a `backend`-like option (choices attached late) -/
+def demoBackend : List Opt :=
+  [ { name := ['b'], ty := .str, default := .s ['d','b','m'], short := none, long := ['b','a','c','k','e','n','d'],
+      inverse := [], choices := [.s ['d','b','m'], .s ['j','s','o','n']], envVar := none } ]
+
+def errOf {α : Type} : Except Err α → Option Err
+  | .error e => some e
+  | .ok _ => none
+
 end DoitModel.Opt
